@@ -96,9 +96,10 @@ Gate(k, m, nis) ==
        RSign(e) > 0 /\ RLess(RMul(RMul(RI(2 * m), k), k), RMul(e, e))
 
 \* badness of the gate computation itself
+\* (comparisons cross-multiply: both sides must fit the window)
 GateBad(k, m, nis) ==
   k # NoGate /\ LET e == RSub(nis, RI(m)) IN
-                IsBad(e) \/ IsBad(RMul(RMul(RI(2 * m), k), k)) \/ IsBad(RMul(e, e))
+                ~Fits(e) \/ ~Fits(RMul(RMul(RI(2 * m), k), k)) \/ ~Fits(RMul(e, e))
 \* exactly on the boundary (must be KEPT: the test is strict)
 GateOnBoundary(k, m, nis) ==
   k # NoGate /\ LET e == RSub(nis, RI(m)) IN RSign(e) > 0 /\ RMul(RMul(RI(2 * m), k), k) = RMul(e, e)
